@@ -1,7 +1,10 @@
 #!/usr/bin/env python3
 """Runs registered checks against one seeded change (a patch that breaks a property).
 
-usage: seedcheck.py <seeded-dir> [--checks C09,C08] [--tier quick] [--skip-demo] [--keep]
+usage: seedcheck.py <seeded-dir> [--checks C09,C08] [--tier quick] [--skip-demo] [--side] [--fast]
+
+--side  writes evidence and replays of the run under a private directory (VERIF_OUT), so that several
+        seedchecks can run side by side; --fast skips the minimisation of replay files (regression runs).
 
 <seeded-dir> holds patch.diff and meta.json:
   {"property": "C09", "demo": {"file": "demo_test.go", "dest": "soyhtml", "cmd": "go test -race -run TestDemo ./soyhtml/"},
@@ -31,6 +34,7 @@ def main():
     checks = meta.get("checks") or [meta["property"]]
     tier = "quick"
     skip_demo = False
+    side = fast = regress = False
     i = 1
     while i < len(args):
         if args[i] == "--checks":
@@ -41,6 +45,13 @@ def main():
             i += 1
         elif args[i] == "--skip-demo":
             skip_demo = True
+        elif args[i] == "--side":
+            side = True
+        elif args[i] == "--fast":
+            fast = True
+        elif args[i] == "--regress":
+            # regression run: side by side, no minimisation, no demo; result.json and replays stay as they are
+            side = fast = skip_demo = regress = True
         i += 1
     wt = tempfile.mkdtemp(prefix="seedwt-")
     os.rmdir(wt)
@@ -75,22 +86,34 @@ def main():
         for c in checks:
             t0 = time.time()
             env = dict(ENV, VERIF_REPO=wt, VERIF_TIER=tier)
+            outdir = ROOT
+            if side:
+                outdir = tempfile.mkdtemp(prefix="seedout-")
+                env["VERIF_OUT"] = outdir
+            if fast:
+                env["VERIF_NO_MINIMISE"] = "1"
             rc, out = run([os.path.join(ROOT, "bin", "verif"), "check", c, "--tier", tier], ROOT, timeout=7200, env=env)
             lines = [l for l in out.splitlines() if l.startswith(("VIOLATION", "TROUBLE", "OK ", "KNOWN-FINDING", "  class="))]
             res["checks"][c] = {"exit": rc, "lines": lines[:12], "wall_s": round(time.time() - t0)}
             # replay files written for the patched tree are kept with the seeded change
-            rdir = os.path.join(ROOT, "replays")
-            if os.path.isdir(rdir):
+            rdir = os.path.join(outdir, "replays")
+            if os.path.isdir(rdir) and not regress:
                 for f in os.listdir(rdir):
                     fp = os.path.join(rdir, f)
                     if os.path.getmtime(fp) >= t0 - 1:
                         os.makedirs(os.path.join(d, "replays"), exist_ok=True)
                         shutil.move(fp, os.path.join(d, "replays", f))
             # evidence and replays written during a seeded run belong to the patched tree: drop them
-            run("git checkout -- evidence 2>/dev/null; true", ROOT)
+            if side:
+                shutil.rmtree(outdir, ignore_errors=True)
+            else:
+                run("git checkout -- evidence 2>/dev/null; true", ROOT)
     finally:
         run(["git", "-C", "/repo", "worktree", "remove", "--force", wt], "/")
         run(["git", "-C", "/repo", "worktree", "prune"], "/")
+    if regress:
+        print("REGRESS %s %s" % (res["seeded"], " ".join("%s=%d" % (c, v["exit"]) for c, v in sorted(res["checks"].items()))))
+        return
     # a partial re-run (--checks / --skip-demo) keeps what earlier runs established
     rp = os.path.join(d, "result.json")
     if os.path.exists(rp):
